@@ -699,26 +699,83 @@ mod real {
         true
     }
 
+    /// the fault configuration and key distribution of a `redis-dst` preset
+    pub fn redis_dst_setup(preset: &str) -> Option<(FaultConfig, usize, Option<(u64, f64)>, u64, bool)> {
+        // (faults, nodes, Some((zipf keys, skew)) | None = uniform, uniform keys, manual stepping)
+        Some(match preset {
+            "calm" => (FaultConfig::calm(), 5, Some((1000, 1.0)), 0, false),
+            "moderate" => (FaultConfig::moderate(), 5, Some((1000, 1.0)), 0, false),
+            "chaos" => (FaultConfig::chaos(), 5, Some((1000, 1.0)), 0, false),
+            "uniform" => (FaultConfig::chaos(), 4, None, 50, false),
+            "zipf-small" => (FaultConfig::moderate(), 3, Some((20, 1.5)), 0, false),
+            "steps" => (FaultConfig::chaos(), 5, Some((1000, 1.0)), 0, true),
+            _ => return None,
+        })
+    }
+
     pub fn redis_dst(preset: &str, seed: u64, ops: usize, lines: &mut Vec<String>, raw: &mut Vec<String>) -> bool {
-        let cfg = match preset {
-            "calm" => FaultConfig::calm(),
-            "moderate" => FaultConfig::moderate(),
-            "chaos" => FaultConfig::chaos(),
-            _ => return false,
-        };
+        use redis_sim::simulator::dst_integration::KeyDistribution;
+        let Some((cfg, nodes, zipf, ukeys, manual)) = redis_dst_setup(preset) else { return false };
         // as run_redis_dst_batch does
         buggify::reset_stats();
         buggify::set_config(cfg.clone());
-        let mut sim = RedisDSTSimulation::new(seed, 5).with_faults(cfg);
-        let res = sim.run(ops).clone();
+        let mut sim = match (preset, zipf) {
+            ("calm" | "moderate" | "chaos" | "steps", _) => RedisDSTSimulation::new(seed, nodes),
+            (_, None) => RedisDSTSimulation::new_uniform(seed, nodes, ukeys),
+            (_, Some((k, sk))) => RedisDSTSimulation::with_key_distribution(seed, nodes, KeyDistribution::Zipfian { num_keys: k, skew: sk }),
+        }
+        .with_faults(cfg);
+        let res = if manual {
+            // `step()` by hand (no time limit) plus one extra `random_operation()` per step
+            for _ in 0..ops {
+                sim.step();
+                sim.random_operation();
+            }
+            sim.run(0).clone()
+        } else {
+            sim.run(ops).clone()
+        };
         for op in &res.operation_history {
             lines.push(format!("{:?}", op));
         }
         lines.push(format!("result time={} ops={} crashes={} recoveries={} by_type={}", res.total_time_ms, res.total_operations, res.crashes, res.recoveries, sorted_map(&res.operations_by_type)));
         let st = sim.stats();
-        lines.push(format!("stats {:?}", st));
+        lines.push(format!("stats {:?} converged={}", st, sim.check_convergence()));
         raw.push(format!("buggify checks={} triggers={}", sorted_map(&res.buggify_stats.checks), sorted_map(&res.buggify_stats.triggers)));
         true
+    }
+
+    /// a generator that answers every draw with one fixed value: probes `ZipfianGenerator::sample`
+    struct Fixed(u64);
+    impl redis_sim::io::Rng for Fixed {
+        fn next_u64(&mut self) -> u64 { self.0 }
+        fn gen_bool(&mut self, _p: f64) -> bool { false }
+        fn gen_range(&mut self, _lo: u64, _hi: u64) -> u64 { self.0 }
+        fn shuffle<T>(&mut self, _s: &mut [T]) {}
+    }
+
+    /// the REAL sampler as a step function of its one draw `v = gen_range(0, 10^6)`: the boundaries
+    /// `b_1 <= b_2 <= …` with `sample(v) = #{ j | b_j <= v }`; None when it is not monotone
+    pub fn zipf_boundaries(num_keys: u64, skew: f64) -> Option<Vec<u64>> {
+        use redis_sim::simulator::dst_integration::ZipfianGenerator;
+        let z = ZipfianGenerator::new(num_keys, skew);
+        let mut b = Vec::new();
+        let mut prev = 0u64;
+        for v in 0..1_000_000u64 {
+            let s = z.sample(&mut Fixed(v));
+            if s < prev {
+                return None;
+            }
+            for _ in prev..s {
+                b.push(v);
+            }
+            prev = s;
+        }
+        // generate_key is `key<sample>`
+        if z.generate_key(&mut Fixed(999_999)) != format!("key{}", prev) {
+            return None;
+        }
+        Some(b)
     }
 
     /// `member:12` / `field:3` / `value:7` -> the number
@@ -1024,7 +1081,7 @@ mod real {
         sc.latency_range_us = *r.pick(&[(0u64, 0u64), (100, 10_000), (5, 5)]);
     }
 
-    fn paused_runtime() -> tokio::runtime::Runtime {
+    pub fn paused_runtime() -> tokio::runtime::Runtime {
         // virtual tokio time: the simulated stores' latency sleeps complete immediately
         tokio::runtime::Builder::new_current_thread().enable_time().start_paused(true).build().expect("runtime")
     }
@@ -1426,6 +1483,10 @@ mod real {
     }
 }
 
+pub fn paused_runtime() -> tokio::runtime::Runtime {
+    real::paused_runtime()
+}
+
 /// one real harness run: canonical trace (what a model predicts, where there is one), verbatim
 /// report lines (compared between processes only) and, for `dst`, the iteration order `pi`
 #[derive(Clone, PartialEq, Debug, Default)]
@@ -1465,6 +1526,12 @@ fn harness_trace_inner(harness: &str, preset: &str, seed: u64, ops: usize) -> Op
             "partition" => real::partition(preset, seed, &mut t.lines),
             "connection" => real::pipeline(seed, &mut t.lines),
             "scenario" => real::scenario(preset, seed, ops, &mut t.lines),
+            "batch" => crate::c20_more::batch(preset, seed, ops, &mut t.lines, &mut t.raw),
+            "dst-api" => crate::c20_more::dst_api(preset, seed, ops, &mut t.lines, &mut t.raw),
+            "scenario-timing" => crate::c20_more::scenario_timing(preset, seed, ops, &mut t.lines, &mut t.raw),
+            "streaming-workload" | "compaction-workload" => crate::c20_more::workload(harness, preset, seed, ops, &mut t.lines, &mut t.raw),
+            "connection-gen" => crate::c20_more::connection_gen(preset, seed, ops, &mut t.lines, &mut t.raw),
+            "multi-node-api" => crate::c20_more::multi_node_api(preset, seed, ops, &mut t.lines, &mut t.raw),
             "sim-executor" => {
                 // the kernel script generator of part A, Simulation / timer flavours
                 let mut r = Rng::new(seed);
@@ -1546,7 +1613,7 @@ fn run_child(harness: &str, preset: &str, seed: u64, ops: usize) -> Result<Trace
 }
 
 /// configuration numbers of the REAL preset, appended to the `RUN` line for the model
-fn cfg_numbers(harness: &str, preset: &str, seed: u64) -> Option<String> {
+fn cfg_numbers(harness: &str, preset: &str, seed: u64, ops: usize) -> Option<String> {
     if harness.starts_with("crdt-") {
         let c = real::crdt_config(preset, seed)?;
         return Some(format!("{} {}", c.num_replicas, c.message_drop_prob.to_bits()));
@@ -1591,6 +1658,35 @@ fn cfg_numbers(harness: &str, preset: &str, seed: u64) -> Option<String> {
             c.num_writes, c.max_file_size, sc.write_fail_prob.to_bits(), sc.partial_write_prob.to_bits(), sc.fsync_fail_prob.to_bits(),
             sc.disk_full_prob.to_bits(), c.simulate_crash as u8, c.fsync_after_write as u8, l.join(" ")
         ));
+    }
+    if harness == "redis-dst" {
+        let (fc, nodes, zipf, ukeys, manual) = real::redis_dst_setup(preset)?;
+        let d = redis_sim::simulator::dst::DSTConfig::default();
+        let p = fc.get(faults::process::CRASH);
+        let (kind, nkeys, table) = match zipf {
+            None => (0u8, ukeys, Vec::new()),
+            Some((k, sk)) => (1u8, k, real::zipf_boundaries(k, sk)?),
+        };
+        return Some(format!(
+            "{} {} {} {} {} {} {} {} {} {} {} {} {} {}",
+            nodes, p.to_bits(), d.crash_config.enable_buggify_crashes as u8, d.enable_clock_skew as u8, d.max_clock_skew_ms * 2, d.max_clock_drift_ppm * 2,
+            d.crash_config.min_recovery_time_ms, d.crash_config.max_recovery_time_ms, d.max_time_ms, crate::cfg::CODE_DST_SORTS_NODES as u8, manual as u8, kind, nkeys,
+            table.iter().map(|x| x.to_string()).collect::<Vec<_>>().join(" ")
+        ).trim_end().to_string());
+    }
+    if harness == "scenario-timing" {
+        let sc = crate::c20_more::scenario_of(preset, seed, ops)?;
+        let (en, bits) = match sc.buggify { Some(p) => (1u8, p.to_bits()), None => (0, 0) };
+        let ops: Vec<String> = sc.ops.iter().map(|(t, c)| format!("{} {}", t, c)).collect();
+        return Some(format!("{} {} {} {}", en, bits, sc.evict_ms, ops.join(" ")));
+    }
+    if harness == "streaming-workload" {
+        let c = crate::c20_more::streaming_cfg(preset, seed)?;
+        return Some(format!("{} {} {}", c.crash_probability.to_bits(), (c.crash_probability + c.flush_probability).to_bits(), c.replica_id));
+    }
+    if harness == "compaction-workload" {
+        let c = crate::c20_more::compaction_cfg(preset, seed)?;
+        return Some(format!("{} {} {}", c.compact_probability.to_bits(), (c.compact_probability + c.flush_probability).to_bits(), c.replica_id));
     }
     if harness == "dst" {
         let c = real::dst_config(preset, seed)?;
@@ -1650,7 +1746,7 @@ const FAMILIES: &[Family] = &[
     Family { name: "crdt-vclock", presets: &["calm", "moderate", "chaos"], ops: 200, modelled: true, quick_presets: 3 },
     Family { name: "dst", presets: &["chaos", "chaos9", "default", "calm", "gen"], ops: 400, modelled: true, quick_presets: 5 },
     Family { name: "sim-executor", presets: &["script"], ops: 0, modelled: false, quick_presets: 1 },
-    Family { name: "redis-dst", presets: &["chaos", "moderate", "calm"], ops: 150, modelled: false, quick_presets: 2 },
+    Family { name: "redis-dst", presets: &["chaos", "moderate", "uniform", "zipf-small", "steps", "calm"], ops: 150, modelled: true, quick_presets: 5 },
     Family { name: "executor", presets: &["default", "chaos", "gen", "calm", "string_heavy"], ops: 300, modelled: false, quick_presets: 3 },
     Family { name: "list", presets: &["default", "high_churn", "modify_heavy", "gen"], ops: 300, modelled: true, quick_presets: 4 },
     Family { name: "set", presets: &["default", "small_members", "high_churn", "large_members", "gen"], ops: 300, modelled: true, quick_presets: 5 },
@@ -1665,6 +1761,14 @@ const FAMILIES: &[Family] = &[
     Family { name: "wal", presets: &["chaos", "default", "crash_only", "baseline", "chaos_nofsync", "chaos_tiny_files", "gen"], ops: 0, modelled: true, quick_presets: 7 },
     Family { name: "connection", presets: &["pipeline"], ops: 0, modelled: false, quick_presets: 1 },
     Family { name: "scenario", presets: &["buggify", "plain"], ops: 120, modelled: false, quick_presets: 1 },
+    // session 3: entry points found by the source-derived audit (c20_src.rs / c20_more.rs)
+    Family { name: "scenario-timing", presets: &["buggify", "evict", "gen", "buggify-always", "buggify-never", "plain"], ops: 60, modelled: true, quick_presets: 6 },
+    Family { name: "streaming-workload", presets: &["default", "calm", "moderate", "chaos", "gen"], ops: 200, modelled: true, quick_presets: 5 },
+    Family { name: "compaction-workload", presets: &["default", "calm", "aggressive", "chaos", "gen"], ops: 200, modelled: true, quick_presets: 5 },
+    Family { name: "batch", presets: crate::c20_more::BATCH_PRESETS, ops: 60, modelled: false, quick_presets: 15 },
+    Family { name: "dst-api", presets: &["sim", "crash"], ops: 150, modelled: false, quick_presets: 2 },
+    Family { name: "connection-gen", presets: &["conn", "readbuf", "pipeline-sizes"], ops: 25, modelled: false, quick_presets: 3 },
+    Family { name: "multi-node-api", presets: &["corpus-deltas8", "broadcast", "partitioned"], ops: 60, modelled: false, quick_presets: 3 },
 ];
 
 /// is the family run by part B, and is its trace predicted by a Lean model?
@@ -1689,7 +1793,7 @@ fn part_b(a: &Args, out: &mut Out) {
         let presets = if thorough { fam.presets } else { &fam.presets[..fam.quick_presets] };
         for preset in presets {
             // the process-level comparison costs K+3 runs: fewer seeds for the slow families in quick
-            let fam_seeds: &[u64] = if !thorough && !fam.modelled && matches!(fam.name, "streaming" | "compaction" | "redis-dst" | "multi-node") { &seeds[..3] } else { &seeds };
+            let fam_seeds: &[u64] = if !thorough && !fam.modelled && matches!(fam.name, "streaming" | "compaction" | "multi-node" | "batch") { &seeds[..3] } else { &seeds };
             for &seed in fam_seeds {
                 let ops = if thorough { fam.ops * 2 } else { fam.ops };
                 let replay = json!({"harness": fam.name, "preset": preset, "seed": seed, "ops": ops,
@@ -1724,9 +1828,15 @@ fn part_b(a: &Args, out: &mut Out) {
                     if t.raw != traces[0].raw {
                         let i = first_diff(&traces[0].raw, &t.raw);
                         all_same = false;
-                        out.violation(&format!("C20:report-differs-across-processes:{}", fam.name),
-                            &format!("{} {} seed {}: the text the harness reports (summary / violation strings / float statistics) differs between two fresh processes", fam.name, preset, seed),
-                            json!({"replay": replay, "process_1": traces[0].raw.get(i), "process_n": t.raw.get(i)}));
+                        let accessor = traces[0].raw.get(i).and_then(|l| l.strip_prefix("order-of:")).and_then(|l| l.split(' ').next()).map(|x| x.to_string());
+                        match accessor {
+                            Some(acc) => out.violation(&format!("C20:accessor-in-map-order:{}:{}", fam.name, acc),
+                                &format!("{} {} seed {}: the public accessor {} returns the simulation's final state in an order that differs between two fresh processes (it iterates a HashMap)", fam.name, preset, seed, acc),
+                                json!({"replay": replay, "process_1": traces[0].raw.get(i), "process_n": t.raw.get(i)})),
+                            None => out.violation(&format!("C20:report-differs-across-processes:{}", fam.name),
+                                &format!("{} {} seed {}: the text the harness reports (summary / violation strings / float statistics) differs between two fresh processes", fam.name, preset, seed),
+                                json!({"replay": replay, "process_1": traces[0].raw.get(i), "process_n": t.raw.get(i)})),
+                        }
                         break;
                     }
                 }
@@ -1761,6 +1871,13 @@ fn part_b(a: &Args, out: &mut Out) {
                         &format!("{} {} seed {}: the parent process and a fresh child differ; first divergence at trace line {}", fam.name, preset, seed, i + 1),
                         json!({"replay": replay, "line": i + 1, "parent": p1.lines.get(i), "child": traces[0].lines.get(i)}));
                 }
+                for l in traces[0].lines.iter().filter(|l| l.starts_with("ORACLE-FAIL ")) {
+                    let mut it = l.splitn(3, ' ');
+                    it.next();
+                    let sig = it.next().unwrap_or("child-oracle");
+                    all_same = false;
+                    out.violation(&format!("C20:{}", sig), &format!("{} {} seed {}: {}", fam.name, preset, seed, it.next().unwrap_or("")), json!({"replay": replay}));
+                }
                 if all_same {
                     agree += 1;
                 } else {
@@ -1776,7 +1893,7 @@ fn part_b(a: &Args, out: &mut Out) {
                 let canon = format!("{} {} {} {}", fam.name, preset, seed, ops);
                 out.case(&canon, traces[0].lines.len() > 3 || fam.name == "wal");
                 if fam.modelled {
-                    let cfgn = cfg_numbers(fam.name, preset, seed).expect("cfg numbers");
+                    let cfgn = cfg_numbers(fam.name, preset, seed, ops).expect("cfg numbers");
                     // with an iteration order as input: every process is its own case (its own order)
                     let mut all: Vec<&Trace> = traces.iter().collect();
                     all.push(&p1);
